@@ -30,6 +30,12 @@ def expected_unit(o, quantity, suffix):
             pre = s[: len(s) - len(root)]
             if pre in o["multipliers"]:
                 return o["multipliers"][pre] + word
+    # a multiplier in front of a named unit of the quantity (MWH = M + WH): the same multiplier rule, M = milli, MA = mega
+    prefixed = tuple(v for k, v in o["multipliers"].items() if k)
+    for pre in sorted((k for k in o["multipliers"] if k), key=lambda k: -len(k)):
+        rest = s[len(pre):]
+        if s.startswith(pre) and rest in q["named"] and not q["named"][rest].startswith(prefixed):
+            return o["multipliers"][pre] + q["named"][rest]
     return None
 
 
@@ -251,6 +257,14 @@ def run(R, tier):
         conv_ok = all(len([e for e in r.trace if e.kind == "call" and e.name.endswith("TryFrom::try_from")]) == 1 for r in res)
         vars_ = {r.retval.fields[0].name for r in res if M.outcome(r) == "Ok" and isinstance(r.retval.fields.get(0), EnumV)}
         R.check(conv_ok and vars_ <= {"None"} and bool(res), "R18.4", "Amplitude<-%s" % name, "delegated to the unit conversion (Amplitude::None)", "Amplitude from %s: %s" % (name, [M.outcome(r) for r in res]), where=b.span)
+
+    # ---- R18.7 the number of a suffixed value is converted like any decimal literal ------------------------------------------------
+    # Every unit conversion hands the numeric part to the element type's own conversion (R18.6). That conversion's rules
+    # (C08/R08.2: the whole literal to the float parser, its value returned unchanged, nothing it accepted refused) are
+    # evaluated here as well, so that a change to the shared float conversion that changes what a quantity accepts - a zero
+    # written with an exponent, say - is reported under this property too.
+    from . import c08, c07
+    c08.float_delegation(c07.Renamed(R, "R18.7", "number:"))
 
 
 def _rv_operands(rv):
